@@ -86,9 +86,12 @@ fn volume(cx: &mut Cx) {
     type Out = (Vec<[u8; 32]>, Vec<[u8; 32]>, u64, u64);
     let steps: Vec<(NodeId, Box<dyn FnOnce() -> Out + Send>)> = nodes.iter().map(|&n| {
         let f: Box<dyn FnOnce() -> Out + Send> = Box::new(move || {
-            use zkryptium::utils::util::bbsplus_utils::calculate_random_scalars;
             let mut zero_a = 0u64; let mut zero_b = 0u64;
-            let a: Vec<[u8; 32]> = (0..batches / 4).map(|_| { let v = calculate_random_scalars(3); let b = v[0].to_be_bytes(); if v.iter().any(|x| x.to_be_bytes() == [0u8; 32]) { zero_a += 1; } b }).collect();
+            #[cfg(feature = "library-helpers")]
+            let a: Vec<[u8; 32]> = { use zkryptium::utils::util::bbsplus_utils::calculate_random_scalars; (0..batches / 4).map(|_| { let v = calculate_random_scalars(3); let b = v[0].to_be_bytes(); if v.iter().any(|x| x.to_be_bytes() == [0u8; 32]) { zero_a += 1; } b }).collect() };
+            // (engine built without the library-helpers feature: only the public BlindFactor::random is drawn from)
+            #[cfg(not(feature = "library-helpers"))]
+            let a: Vec<[u8; 32]> = { let _ = batches; Vec::new() };
             let b: Vec<[u8; 32]> = (0..factors / 4).map(|_| { let x = zkryptium::bbsplus::commitment::BlindFactor::random().to_bytes(); if x == [0u8; 32] { zero_b += 1; } x }).collect();
             (a, b, zero_a, zero_b)
         });
